@@ -541,6 +541,7 @@ struct Env {
     faults_at_turn: usize,
     mask_at_turn: usize,
     dmarked: Vec<bool>,
+    last_pr: &'static str,           // the pause/resume command pushed last (in the order the pushes really happened)
     dturn: Vec<(usize, bool)>,       // per dispatch: handles in the rotation right after it; every handle was marked available at its last turn
     points: Vec<(String, usize)>,
     anchored: Vec<(String, usize, Act, bool)>, // kind, nth (1-based, per iteration), action, fired
@@ -616,6 +617,8 @@ pub struct Snap {
     pub dmarked: Vec<bool>,
     /// per dispatch: handles in the rotation right after it; every handle was marked available at its last turn
     pub dturn: Vec<(usize, bool)>,
+    /// the pause/resume command pushed last ("" if none), in the order the pushes really happened
+    pub last_pr: String,
     pub inprog: Vec<Vec<usize>>,
     pub finished: Vec<usize>,
     pub uds_path: Vec<bool>,
@@ -781,8 +784,14 @@ impl Env {
                 };
                 self.wq.wake(WakerInterest::Worker(handle));
             }
-            Act::Pause => self.wq.wake(WakerInterest::Pause),
-            Act::Resume => self.wq.wake(WakerInterest::Resume),
+            Act::Pause => {
+                self.last_pr = "Pause";
+                self.wq.wake(WakerInterest::Pause)
+            }
+            Act::Resume => {
+                self.last_pr = "Resume";
+                self.wq.wake(WakerInterest::Resume)
+            }
             Act::Stop => self.wq.wake(WakerInterest::Stop),
             Act::WakeAvailable(i) => self.wq.wake(WakerInterest::WorkerAvailable(*i)),
             Act::Inject(l, errno) => {
@@ -1120,6 +1129,7 @@ impl Sim {
             faults_at_turn: 0,
             mask_at_turn: 0,
             dmarked: vec![],
+            last_pr: "",
             dturn: vec![],
             points: vec![],
             anchored: vec![],
@@ -1376,6 +1386,7 @@ impl Sim {
         s.davail = e.davail.clone();
         s.dmarked = e.dmarked.clone();
         s.dturn = e.dturn.clone();
+        s.last_pr = e.last_pr.to_string();
         s.in_hand = e.in_hand.map(|c| c as i64).unwrap_or(-1);
         s.inprog = vec![vec![]; n];
         {
